@@ -1400,11 +1400,11 @@ SEW2_OUT = os.path.join(os.path.dirname(os.path.dirname(os.path.abspath(__file__
 POLICY_CODE = {"Vertex": 0, "Edge": 1, "Face": 2, "Volume": 3}
 
 
-def sew_instrs(src, fname, label="dim2/sews/one.rs"):
+def sew_instrs(src, fname, label="dim2/sews/one.rs", pnames=("lhs_dart_id", "rhs_dart_id")):
     where = f"{label} {fname}"
     sig = "".join(fn_sig(src, fname).split())
     params = re.findall(r"(\w+):DartIdType", sig)
-    need(params in (["lhs_dart_id", "rhs_dart_id"], ["lhs_dart_id"]), f"{where}: parameters {params}")
+    need(params in (list(pnames), [pnames[0]]), f"{where}: parameters {params}")
     base = {p: k for k, p in enumerate(params)}
     base["NULL_DART_ID"] = 2
 
@@ -1465,6 +1465,63 @@ def sew_instrs(src, fname, label="dim2/sews/one.rs"):
                 need(m.group(2) in POLICY_CODE, f"{where}: unknown policy {m.group(2)}")
                 out.append((7, [0 if m.group(1) == "merge" else 1, POLICY_CODE[m.group(2)], arg(m.group(3)), arg(m.group(4)), arg(m.group(5))]))
                 pos = m.end()
+                continue
+            # --- shapes of dim3/sews/one.rs and two.rs -------------------------------------------------------------
+            eid = r"self\.edge_id_transac\(trans,(\w+)\)\?"
+            m = re.compile(r"let\((\w+),(\w+)\)=\(" + eid + "," + eid + r",?\);").match(body, pos)
+            if m:
+                a1, a2 = arg(m.group(3)), arg(m.group(4))
+                out += [(10, [a1]), (10, [a2])]
+                bind(m.group(1))
+                bind(m.group(2))
+                pos = m.end()
+                continue
+            m = re.compile(r"let(\w+)=if(\w+)!=NULL_DART_ID\{" + vid + r"\}elseif(\w+)!=NULL_DART_ID\{" + vid +
+                           r"\}else\{NULL_VERTEX_ID\};").match(body, pos)
+            if m:
+                need(m.group(2) == m.group(3) and m.group(4) == m.group(5), f"{where}: the tested dart is not the one whose vertex is read")
+                out.append((12, [arg(m.group(2)), arg(m.group(4))]))
+                bind(m.group(1))
+                pos = m.end()
+                continue
+            m = re.compile(r"try_or_coerce!\(self\.(one_link|one_unlink)\(trans,(\w+)(?:,(\w+))?\),SewError\);").match(body, pos)
+            if m:
+                two = m.group(1) == "one_link"
+                need((m.group(3) is not None) == two, f"{where}: arity of {m.group(1)}")
+                out.append((13, [0 if two else 1, arg(m.group(2)), arg(m.group(3)) if two else 2]))
+                pos = m.end()
+                continue
+            m = re.compile(r"if(\w+)!=NULL_VERTEX_ID\{").match(body, pos)
+            if m:
+                th, end = block_after(body, m.end() - 1, where)
+                need(not body.startswith("else", end), f"{where}: unexpected `else`")
+                t_ins, _, _ = block(th, dict(names), nvars)
+                out.append((14, [arg(m.group(1)), len(t_ins)]))
+                out += t_ins
+                pos = end
+                continue
+            m = re.compile(r"let(\w+)=(\w+)\.min\((\w+)\);").match(body, pos)
+            if m:
+                out.append((15, [arg(m.group(2)), arg(m.group(3))]))
+                bind(m.group(1))
+                pos = m.end()
+                continue
+            m = re.compile(r"let(\w+)=self\.vertex_id_transac\(trans,if(\w+)!=NULL_DART_ID\{(\w+)\}elseif(\w+)!=NULL_DART_ID\{(\w+)\}"
+                           r"else\{returnOk\(\(\)\);\},?\)\?;").match(body, pos)
+            if m:
+                need(m.group(2) == m.group(3) and m.group(4) == m.group(5), f"{where}: the tested dart is not the one handed to vertex_id_transac")
+                out.append((16, [arg(m.group(2)), arg(m.group(4))]))
+                bind(m.group(1))
+                pos = m.end()
+                continue
+            m = re.compile(r"if(\w+)!=(\w+)\{").match(body, pos)
+            if m and m.group(2) not in ("NULL_DART_ID", "NULL_VERTEX_ID"):
+                th, end = block_after(body, m.end() - 1, where)
+                need(not body.startswith("else", end), f"{where}: unexpected `else`")
+                t_ins, _, _ = block(th, dict(names), nvars)
+                out.append((17, [arg(m.group(1)), arg(m.group(2)), len(t_ins)]))
+                out += t_ins
+                pos = end
                 continue
             m = re.compile(r"let(\w+)=(\w+)as(?:EdgeIdType|VertexIdType|FaceIdType|DartIdType);").match(body, pos)
             if m:
@@ -1575,6 +1632,650 @@ def gen_sews2():
 
 
 GENERATORS["sews2"] = gen_sews2
+
+# ---------------------------------------------------------------------------------------------
+# CMap3::one_sew / one_unsew / two_sew / two_unsew (dim3/sews/one.rs, two.rs)
+# ---------------------------------------------------------------------------------------------
+
+SEW3_RS = os.environ.get("GEN_LEAN_SEW3_RS", "/repo/honeycomb-core/src/cmap/dim3/sews/one.rs")
+SEW3B_RS = os.environ.get("GEN_LEAN_SEW3B_RS", "/repo/honeycomb-core/src/cmap/dim3/sews/two.rs")
+SEW3_OUT = os.path.join(os.path.dirname(SEW2_OUT), "Sews3.lean")
+
+
+def gen_sews3():
+    src = strip_comments(open(SEW3_RS).read())
+    srcb = strip_comments(open(SEW3B_RS).read())
+    fns = [(f, sew_instrs(src, f, "dim3/sews/one.rs", ("ld", "rd"))) for f in ("one_sew", "one_unsew")] + \
+          [(f, sew_instrs(srcb, f, "dim3/sews/two.rs", ("ld", "rd"))) for f in ("two_sew", "two_unsew")]
+    out = ["/-\n  GENERATED by /verif/tools/gen_lean.py from\n  /repo/honeycomb-core/src/cmap/dim3/sews/one.rs and two.rs — DO NOT EDIT.\n"
+           "  Regenerated by tools/check.py before every build of a module that imports it.\n\n"
+           "  `CMap3::one_sew(ld, rd)` / `one_unsew(ld)` (sews/one.rs), `two_sew(ld, rd)` / `two_unsew(ld)` (sews/two.rs) as (opcode, operands).\n"
+           "  Opcodes 0, 1, 5, 6, 7, 9, 10, 11 as in Gen/Sews2.lean (the identifiers are the 3-D ones), and\n"
+           "    (12, [a, b])       let x = if a != NULL_DART_ID { self.vertex_id_transac(trans, a)? }\n"
+           "                               else if b != NULL_DART_ID { self.vertex_id_transac(trans, b)? } else { NULL_VERTEX_ID }   (binds)\n"
+           "    (13, [k, a, b])    try_or_coerce!(self.one_link(trans, a, b), SewError) (k = 0) / self.one_unlink(trans, a) (k = 1)\n"
+           "    (14, [a, n])       if a != NULL_VERTEX_ID { the next n instructions }\n"
+           "    (15, [a, b])       let x = a.min(b)                                               (binds)\n"
+           "    (16, [a, b])       let x = self.vertex_id_transac(trans, if a != NULL_DART_ID { a } else if b != NULL_DART_ID { b }\n"
+           "                               else { return Ok(()); })?                              (binds, or ends the function)\n"
+           "    (17, [a, b, n])    if a != b { the next n instructions }\n"
+           "  operands: 0 = ld, 1 = rd (parameter), 2 = NULL_DART_ID, 20 + j = the j-th variable bound on the path taken.\n"
+           "  Props/C05Gen.lean interprets these lists and proves them EQUAL to `oneSew3` / `oneUnsew3` / `twoSew3` / `twoUnsew3`\n  of Model/Ops3.lean.\n-/\n",
+           "namespace HC.Gen\n"]
+    for f, ins in fns:
+        camel = re.sub(r"_(\w)", lambda m: m.group(1).upper(), f) + "3"
+        out.append(f"/-- `CMap3::{f}` -/\ndef {camel} : List (Nat × List Nat) := [" +
+                   ", ".join(f"({op}, [{', '.join(map(str, a))}])" for op, a in ins) + "]\n")
+    out.append("end HC.Gen\n")
+    txt = "\n".join(out)
+    if not os.path.exists(SEW3_OUT) or open(SEW3_OUT).read() != txt:
+        open(SEW3_OUT, "w").write(txt)
+    return f"gen_lean: sews3 ok ({sum(len(i) for _, i in fns)} instructions)"
+
+
+GENERATORS["sews3"] = gen_sews3
+
+# ---------------------------------------------------------------------------------------------
+# CMap3::three_sew / three_unsew (dim3/sews/three.rs): a skeleton (face walks, accumulators, `for` loops) around
+# straight-line blocks
+# ---------------------------------------------------------------------------------------------
+
+SEW3C_RS = os.environ.get("GEN_LEAN_SEW3C_RS", "/repo/honeycomb-core/src/cmap/dim3/sews/three.rs")
+SEW3C_OUT = os.environ.get("GEN_LEAN_SEW3C_OUT", os.path.join(os.path.dirname(SEW2_OUT), "Sews3Loops.lean"))
+SEW3C_LINKS = {"three_link": 3}            # `self.three_link(trans, a, b)`: the link of this dimension
+
+
+def sew3c_norm(s):
+    """whitespace-normal form that keeps keywords apart: one space between two word characters, none elsewhere"""
+    return re.sub(r" ?([^\w ]) ?", r"\1", " ".join(s.split()))
+
+
+def sew3c_balanced(s):
+    depth = 0
+    for ch in s:
+        if ch in "([{":
+            depth += 1
+        elif ch in ")]}":
+            depth -= 1
+            if depth < 0:
+                return False
+    return depth == 0
+
+
+def sew3c_stmt_end(body, pos, where):
+    """index after the `;` ending the statement that starts at pos (brackets balanced)"""
+    depth = 0
+    for j in range(pos, len(body)):
+        ch = body[j]
+        if ch in "([{":
+            depth += 1
+        elif ch in ")]}":
+            depth -= 1
+            need(depth >= 0, f"{where}: unbalanced statement at {body[pos:pos + 60]!r}")
+        elif ch == ";" and depth == 0:
+            return j + 1
+    raise Shape(f"{where}: statement without `;` at {body[pos:pos + 60]!r}")
+
+
+def sew3c_expr(e, names, st, where):
+    """translate an expression (evaluated left to right, every call binds an anonymous variable); returns its operand"""
+    def fresh(ins):
+        st["out"].append(ins)
+        st["nvars"] += 1
+        return 20 + st["nvars"] - 1
+
+    if re.fullmatch(r"\w+", e):
+        need(e in names, f"{where}: unknown name {e!r}")
+        return names[e]
+    m = re.fullmatch(r"(\w+)\.min\((\w+)\)", e)
+    if m:
+        return fresh((15, [sew3c_expr(m.group(1), names, st, where), sew3c_expr(m.group(2), names, st, where)]))
+    m = re.fullmatch(r"if (\w+)==NULL_DART_ID\{(\w+)\}else\{(\w+)\}", e)
+    if m:
+        return fresh((18, [sew3c_expr(g, names, st, where) for g in m.groups()]))
+    m = re.fullmatch(r"self\.(vertex_id_transac|edge_id_transac)\(trans,(.+)\)\?", e)
+    if m and sew3c_balanced(m.group(2)):
+        a = sew3c_expr(m.group(2), names, st, where)
+        return fresh((5 if m.group(1) == "vertex_id_transac" else 10, [a]))
+    m = re.fullmatch(r"self\.beta_transac::<(\d)>\(trans,(.+)\)\?", e)
+    if m and sew3c_balanced(m.group(2)):
+        a = sew3c_expr(m.group(2), names, st, where)
+        return fresh((1, [int(m.group(1)), a]))
+    raise Shape(f"{where}: expression not recognised: {e[:90]!r}")
+
+
+def sew3c_stmt(body, pos, names, st, accs, where):
+    """translate ONE straight-line statement starting at pos (instructions appended to st["out"]); returns the position after it"""
+    def ex(e):
+        return sew3c_expr(e, names, st, where)
+
+    def bind(name, v):
+        need(name not in names, f"{where}: {name} bound twice")
+        names[name] = v
+
+    if body.startswith("let ", pos) or body.startswith("let(", pos):
+        end = sew3c_stmt_end(body, pos, where)
+        s = body[pos:end - 1]
+        m = re.fullmatch(r"let (\w+)=(.+)", s)
+        if m:
+            bind(m.group(1), ex(m.group(2)))
+            return end
+        m = re.fullmatch(r"let\(([\w,]+)\)=\((.+)\)", s)
+        need(m and sew3c_balanced(m.group(2)), f"{where}: `let` not recognised at {s[:80]!r}")
+        ns, es = [x for x in m.group(1).split(",") if x], split_top(m.group(2))
+        need(len(ns) == len(es) and len(ns) in (2, 4), f"{where}: tuple `let` with {len(ns)} names and {len(es)} values")
+        vals = [ex(e) for e in es]                  # all right-hand sides are evaluated before any name is bound
+        for nm, v in zip(ns, vals):
+            bind(nm, v)
+        return end
+    if body.startswith("try_or_coerce!(", pos):
+        end = sew3c_stmt_end(body, pos, where)
+        m = re.fullmatch(r"try_or_coerce!\((.+),SewError\)", body[pos:end - 1])
+        need(m and sew3c_balanced(m.group(1)), f"{where}: try_or_coerce! not recognised at {body[pos:pos + 80]!r}")
+        call = m.group(1)
+        c = re.fullmatch(r"self\.vertices\.(merge|split)\(trans,(.+)\)", call)
+        if c:
+            args = split_top(c.group(2))
+            need(len(args) == 3, f"{where}: vertices.{c.group(1)} with {len(args)} identifiers")
+            st["out"].append((6, [0 if c.group(1) == "merge" else 1] + [ex(a) for a in args]))
+            return end
+        c = re.fullmatch(r"self\.attributes\.(merge|split)_attributes\(trans,OrbitPolicy::(\w+),(.+)\)", call)
+        if c:
+            need(c.group(2) in POLICY_CODE, f"{where}: unknown policy {c.group(2)}")
+            args = split_top(c.group(3))
+            need(len(args) == 3, f"{where}: {c.group(1)}_attributes with {len(args)} identifiers")
+            st["out"].append((7, [0 if c.group(1) == "merge" else 1, POLICY_CODE[c.group(2)]] + [ex(a) for a in args]))
+            return end
+        c = re.fullmatch(r"self\.(\w+)\(trans,(\w+),(\w+)\)", call)
+        if c:
+            need(c.group(1) in SEW3C_LINKS, f"{where}: unknown call {c.group(1)}")
+            st["out"].append((21, [0, SEW3C_LINKS[c.group(1)], ex(c.group(2)), ex(c.group(3))]))
+            return end
+        c = re.fullmatch(r"self\.unlink::<(\d)>\(trans,(\w+)\)", call)
+        if c:
+            st["out"].append((21, [1, int(c.group(1)), ex(c.group(2)), 2]))
+            return end
+        raise Shape(f"{where}: call not recognised: {call[:90]!r}")
+    m = re.compile(r"(\w+)\.push\(").match(body, pos)
+    if m and m.group(1) in accs:
+        end = sew3c_stmt_end(body, pos, where)
+        mm = re.fullmatch(r"\w+\.push\(\((.+)\)\)", body[pos:end - 1])
+        need(mm and sew3c_balanced(mm.group(1)), f"{where}: push not recognised at {body[pos:pos + 80]!r}")
+        es = split_top(mm.group(1))
+        need(len(es) == 2, f"{where}: push of a {len(es)}-tuple")
+        st["out"].append((20, [accs[m.group(1)]] + [ex(e) for e in es]))
+        return end
+    if body.startswith("if let(", pos):
+        # the orientation test: four vertex reads, two difference vectors, abort on a non-negative dot product
+        rv = r"self\.vertices\.read\(trans,(\w+)\)\?"
+        m = re.compile(r"if let\(Some\((\w+)\),Some\((\w+)\),Some\((\w+)\),Some\((\w+)\),?\)=\(" +
+                       rv + "," + rv + "," + rv + "," + rv + r",?\)\{let (\w+)=(\w+)-(\w+);let (\w+)=(\w+)-(\w+);"
+                       r"if (\w+)\.dot\(&(\w+)\)>=T::zero\(\)\{abort\(SewError::BadGeometry\((\d),(\w+),(\w+)\)\)\?;\}\}").match(body, pos)
+        need(m, f"{where}: orientation test not recognised at {body[pos:pos + 90]!r}")
+        g = m.groups()
+        pl, pb1r, pb1l, pr = g[0:4]
+        need((g[9], g[10]) == (pb1l, pl) and (g[12], g[13]) == (pb1r, pr) and {g[14], g[15]} == {g[8], g[11]} and g[8] != g[11],
+             f"{where}: orientation test is not (b1l - l).(b1r - r) >= 0 on the values read in the order l, b1r, b1l, r")
+        st["out"].append((11, [ex(g[4]), ex(g[5]), ex(g[6]), ex(g[7]), int(g[16]), ex(g[17]), ex(g[18])]))
+        return m.end()
+    if body.startswith("if ", pos):
+        brace = body.find("{", pos)
+        need(brace > 0, f"{where}: `if` without block")
+        m = re.fullmatch(r"(.+)==NULL_DART_ID", body[pos + 3:brace])
+        need(m and sew3c_balanced(m.group(1)), f"{where}: `if` condition not recognised: {body[pos:brace][:80]!r}")
+        inner, end = block_after(body, brace, where)
+        need(not body.startswith("else", end), f"{where}: unexpected `else`")
+        c = ex(m.group(1))
+        sub = {"out": [], "nvars": st["nvars"]}      # the variables of the block are dropped after it (the interpreter restores them)
+        sew3c_block(inner, dict(names), sub, accs, where)
+        st["out"].append((19, [c, len(sub["out"])]))
+        st["out"] += sub["out"]
+        return end
+    if body.startswith("{", pos):
+        inner, end = block_after(body, pos, where)
+        sew3c_block(inner, dict(names), st, accs, where)       # names are local to the block, variables keep their numbers
+        return end
+    raise Shape(f"{where}: statement not recognised at {body[pos:pos + 90]!r}")
+
+
+def sew3c_block(body, names, st, accs, where):
+    pos = 0
+    while pos < len(body):
+        pos = sew3c_stmt(body, pos, names, st, accs, where)
+
+
+def sew3c_fn(src, fname, params):
+    """returns (skeleton, blocks)"""
+    where = f"dim3/sews/three.rs {fname}"
+    sig = "".join(fn_sig(src, fname).split())
+    need(re.findall(r"(\w+):DartIdType", sig) == params, f"{where}: parameters are not {params}")
+    body = sew3c_norm(fn_body(src, fname))
+    need(body.endswith("Ok(())"), f"{where}: does not end with Ok(())")
+    body = body[:-len("Ok(())")]
+    names = {p: k for k, p in enumerate(params)}
+    names["NULL_DART_ID"] = 2
+    sides, accs, blocks, skel = {}, {}, [], []
+    st = {"out": [], "nvars": 0}
+
+    def fresh_name(nm):
+        need(nm not in names and nm not in sides and nm not in accs, f"{where}: {nm} bound twice")
+
+    def loop_body(inner, a, b, with_accs):
+        need(a != b, f"{where}: loop pattern ({a}, {b})")
+        bst = {"out": [], "nvars": 0}
+        sew3c_block(inner, {a: 0, b: 1, "NULL_DART_ID": 2}, bst, accs if with_accs else {}, where)
+        blocks.append(bst["out"])
+        return len(blocks) - 1
+
+    pos = 0
+    while pos < len(body):
+        m = re.compile(r"let (\w+)=self\.orbit_transac\(trans,OrbitPolicy::Custom\(&\[([\d,]*)\]\),(\w+)\)"
+                       r"\.collect::<Result<Vec<_>,_>>\(\)\?;").match(body, pos)
+        if m:
+            fresh_name(m.group(1))
+            gens = [int(x) for x in m.group(2).split(",") if x]
+            need(gens, f"{where}: empty Custom policy")
+            need(m.group(3) in names, f"{where}: unknown name {m.group(3)!r}")
+            skel.append((40, [names[m.group(3)]] + gens))
+            sides[m.group(1)] = len(sides)
+            pos = m.end()
+            continue
+        m = re.compile(r"let (\w+)=(\w+)\.iter\(\)\.copied\(\)\.min\(\)\.expect\(\"[^\"]*\"\);").match(body, pos)
+        if m:
+            fresh_name(m.group(1))
+            need(m.group(2) in sides, f"{where}: {m.group(2)} is not a collected walk")
+            skel.append((41, [sides[m.group(2)]]))
+            names[m.group(1)] = 20 + st["nvars"]
+            st["nvars"] += 1
+            pos = m.end()
+            continue
+        m = re.compile(r"let mut (\w+):Vec<\((\w+),(\w+)\)>=Vec::with_capacity\(\d+\);").match(body, pos)
+        if m:
+            fresh_name(m.group(1))
+            need(len(accs) < 2, f"{where}: more than two accumulators")
+            accs[m.group(1)] = len(accs)
+            skel.append((42, [accs[m.group(1)]]))
+            pos = m.end()
+            continue
+        m = re.compile(r"for\((\w+),(\w+)\)in (\w+)\.into_iter\(\)\.zip\((\w+)\)\{").match(body, pos)
+        if m:
+            need(m.group(3) in sides and m.group(4) in sides, f"{where}: zip of {m.group(3)}, {m.group(4)}")
+            inner, pos = block_after(body, m.end() - 1, where)
+            skel.append((43, [sides[m.group(3)], sides[m.group(4)], loop_body(inner, m.group(1), m.group(2), True)]))
+            continue
+        m = re.compile(r"for\((\w+),(\w+)\)in (\w+)\.into_iter\(\)\.filter\(\|&\((\w+),(\w+)\)\|\{([^{}]*)\}\)\{").match(body, pos)
+        if m:
+            need(m.group(3) in accs, f"{where}: {m.group(3)} is not an accumulator")
+            need(m.group(4) != m.group(5), f"{where}: closure pattern")
+            cn = {m.group(4): 0, m.group(5): 1, "NULL_DART_ID": 2}
+            conds = []
+            for c in m.group(6).split("&&"):
+                mm = re.fullmatch(r"(\w+)!=(\w+)", c)
+                need(mm and mm.group(1) in cn and mm.group(2) in cn, f"{where}: filter condition {c!r}")
+                conds += [cn[mm.group(1)], cn[mm.group(2)]]
+            inner, pos = block_after(body, m.end() - 1, where)
+            skel.append((44, [accs[m.group(3)], loop_body(inner, m.group(1), m.group(2), False)] + conds))
+            continue
+        pos = sew3c_stmt(body, pos, names, st, accs, where)
+        for op, args in st["out"]:
+            need(op != 19, f"{where}: conditional block outside the loop bodies")
+            skel.append((45, [op] + args))
+        st["out"] = []
+    return skel, blocks
+
+
+def gen_sews3c():
+    src = strip_comments(open(SEW3C_RS).read())
+    fns = [("three_sew", "threeSew") + sew3c_fn(src, "three_sew", ["ld", "rd"]),
+           ("three_unsew", "threeUnsew") + sew3c_fn(src, "three_unsew", ["ld"])]
+
+    def lst(ins):
+        return "[" + ", ".join(f"({op}, [{', '.join(map(str, a))}])" for op, a in ins) + "]"
+
+    out = ["/-\n  GENERATED by /verif/tools/gen_lean.py from\n  /repo/honeycomb-core/src/cmap/dim3/sews/three.rs — DO NOT EDIT.\n"
+           "  Regenerated by tools/check.py before every build of a module that imports it.\n\n"
+           "  `CMap3::three_sew(ld, rd)` / `three_unsew(ld)`: a SKELETON (`…Skel`) and the BLOCKS it loops over (`…Body<j>`, collected in\n"
+           "  `…Bodies`), all as (opcode, operands).  Straight-line instructions (blocks; in a skeleton wrapped as (45, op :: operands)):\n"
+           "    (1, [i, a])            self.beta_transac::<i>(trans, a)?                               (binds the next variable)\n"
+           "    (5, [a]) / (10, [a])   self.vertex_id_transac(trans, a)? / self.edge_id_transac(trans, a)?   (binds)\n"
+           "    (6, [k, x, y, z])      try_or_coerce!(self.vertices.merge / split (k = 0 / 1)(trans, x, y, z), SewError)\n"
+           "    (7, [k, p, x, y, z])   try_or_coerce!(self.attributes.merge_ / split_attributes(trans, OrbitPolicy::p, x, y, z), SewError)\n"
+           "    (11, [l, b1r, b1l, r, i, a, b])  the orientation test: read the four vertex values in this order (`?` after each);\n"
+           "                           if all are defined and (b1l - l) . (b1r - r) >= 0, abort(SewError::BadGeometry(i, a, b))\n"
+           "    (15, [a, b])           a.min(b)                                                         (binds)\n"
+           "    (18, [x, y, z])        if x == NULL_DART_ID { y } else { z }                            (binds)\n"
+           "    (19, [a, n])           if a == NULL_DART_ID { the next n instructions }                 (their variables are dropped after the block)\n"
+           "    (20, [j, a, b])        <accumulator j>.push((a, b))\n"
+           "    (21, [0, i, a, b])     try_or_coerce!(self.three_link(trans, a, b), SewError)  (i = 3)\n"
+           "    (21, [1, i, a, 2])     try_or_coerce!(self.unlink::<i>(trans, a), SewError)\n"
+           "  Nested calls are flattened in evaluation order (left to right, arguments first), every call binding an anonymous\n"
+           "  variable; `let x = e` / `let (x, y, …) = (e, f, …)` only name operands (all right-hand sides evaluated first).\n"
+           "  Skeleton instructions:\n"
+           "    (40, a :: g)           let side<j> = self.orbit_transac(trans, OrbitPolicy::Custom(&g), a).collect::<Result<Vec<_>, _>>()?\n"
+           "    (41, [s])              let x = side<s>.iter().copied().min().expect(..)   (binds; the walk starts with its start dart, which\n"
+           "                           the interpreter — like the model — uses as the seed of the minimum)\n"
+           "    (42, [j])              let mut <accumulator j> = Vec::with_capacity(..)\n"
+           "    (43, [s, t, b])        for (l, r) in side<s>.into_iter().zip(side<t>) { block b with operands 0, 1 = l, r }\n"
+           "    (44, j :: b :: c)      for (x, y) in <accumulator j>.into_iter().filter(|&(u, v)| c) { block b with operands 0, 1 = x, y };\n"
+           "                           c = [a1, b1, a2, b2, …] stands for a1 != b1 && a2 != b2 && … over 0 = u, 1 = v, 2 = NULL_DART_ID\n"
+           "  operands: 0 = ld / first loop variable, 1 = rd / second loop variable, 2 = NULL_DART_ID, 20 + j = the j-th variable bound\n"
+           "  on the path taken; p: 0 = Vertex, 1 = Edge, 2 = Face.  Props/C05Gen3.lean interprets these lists and proves them EQUAL to\n"
+           "  `threeSew3` / `threeUnsew3` (and their loops `threeSewCollect` / `threeUnsewLoop`) of Model/Ops3.lean.\n-/\n",
+           "namespace HC.Gen\n"]
+    for f, camel, skel, blocks in fns:
+        for j, b in enumerate(blocks):
+            out.append(f"/-- `CMap3::{f}`: body of its loop number {j} -/\ndef {camel}Body{j} : List (Nat × List Nat) := {lst(b)}\n")
+        out.append(f"/-- `CMap3::{f}`: the loop bodies, as numbered by the skeleton -/\ndef {camel}Bodies : List (List (Nat × List Nat)) := [" +
+                   ", ".join(f"{camel}Body{j}" for j in range(len(blocks))) + "]\n")
+        out.append(f"/-- `CMap3::{f}`: the skeleton -/\ndef {camel}Skel : List (Nat × List Nat) := {lst(skel)}\n")
+    out.append("end HC.Gen\n")
+    txt = "\n".join(out)
+    if not os.path.exists(SEW3C_OUT) or open(SEW3C_OUT).read() != txt:
+        open(SEW3C_OUT, "w").write(txt)
+    n_ins = sum(len(s) + sum(len(b) for b in bl) for _, _, s, bl in fns)
+    return f"gen_lean: sews3c ok ({n_ins} instructions)"
+
+
+GENERATORS["sews3c"] = gen_sews3c
+
+# ---------------------------------------------------------------------------------------------
+# CMap3::three_link / three_unlink (dim3/links/three.rs): straight-line code + two `while` loops over the
+# mutable pair (lside, rside)
+# ---------------------------------------------------------------------------------------------
+
+LINK3C_RS = os.environ.get("GEN_LEAN_LINK3C_RS", "/repo/honeycomb-core/src/cmap/dim3/links/three.rs")
+LINK3C_OUT = os.path.join(os.path.dirname(LINK3_OUT), "Links3Loops.lean")
+
+
+def link3c_instrs(src, fname):
+    where = f"dim3/links/three.rs {fname}"
+    sig = "".join(fn_sig(src, fname).split())
+    params = re.findall(r"(\w+):DartIdType", sig)
+    need(params in (["ld", "rd"], ["ld"]), f"{where}: parameters {params}")
+    names = {p: k for k, p in enumerate(params)}
+    names["NULL_DART_ID"] = 2
+    nvars = [0]
+    regs = {}                      # the two `mut` variables, codes 10 and 11, declared by the `let (mut a, mut b) = …`
+
+    def arg(tok):
+        if tok in regs:
+            return regs[tok]
+        need(tok in names, f"{where}: unknown name {tok!r}")
+        return names[tok]
+
+    def bind(name):
+        need(name not in names and name not in regs, f"{where}: {name} bound twice")
+        names[name] = 20 + nvars[0]
+        nvars[0] += 1
+
+    beta = r"self\.beta_transac::<(\d)>\(trans,(\w+)\)\?"
+    ab = r"\{abort\(LinkError::(\w+)\(([\w,]*)\)\)\?;\}"
+
+    def err(k, es):
+        need(k in LINK_ERRS3, f"{where}: unknown LinkError::{k}")
+        return [LINK_ERRS3[k]] + [arg(a) for a in es.split(",") if a]
+
+    def block(body):
+        out, pos = [], 0
+        while pos < len(body):
+            m = re.compile(r"self\.betas\.(\w+_core)\(trans,(\w+)(?:,(\w+))?\)\?;").match(body, pos)
+            if m:
+                need(m.group(1) in CORE_CODE, f"{where}: unknown core {m.group(1)}")
+                two = CORE_CODE[m.group(1)] < 3
+                need((m.group(3) is not None) == two, f"{where}: arity of {m.group(1)}")
+                out.append((0, [CORE_CODE[m.group(1)], arg(m.group(2)), arg(m.group(3)) if two else 2]))
+                pos = m.end()
+                continue
+            m = re.compile(r"let(\w+)=" + beta + ";").match(body, pos)
+            if m:
+                out.append((1, [int(m.group(2)), arg(m.group(3))]))
+                bind(m.group(1))
+                pos = m.end()
+                continue
+            m = re.compile(r"let\(mut(\w+),mut(\w+)\)=\(" + beta + "," + beta + r",?\);").match(body, pos)
+            if m:
+                need(not regs, f"{where}: a second pair of mutable variables")
+                out.append((30, [int(m.group(3)), arg(m.group(4)), int(m.group(5)), arg(m.group(6))]))
+                regs[m.group(1)], regs[m.group(2)] = 10, 11
+                pos = m.end()
+                continue
+            m = re.compile(r"\((\w+),(\w+)\)=\(" + beta + "," + beta + r",?\);").match(body, pos)
+            if m:
+                need(regs.get(m.group(1)) == 10 and regs.get(m.group(2)) == 11, f"{where}: assignment to {m.group(1)}, {m.group(2)}")
+                out.append((30, [int(m.group(3)), arg(m.group(4)), int(m.group(5)), arg(m.group(6))]))
+                pos = m.end()
+                continue
+            m = re.compile(r"while(\w+)!=(\w+)&&(\w+)!=NULL_DART_ID\{").match(body, pos) or \
+                re.compile(r"while(\w+)!=(NULL_DART_ID)()\{").match(body, pos)
+            if m:
+                need(regs.get(m.group(1)) == 10 and m.group(3) in ("", m.group(1)), f"{where}: loop condition is not on the first mutable variable")
+                need(m.group(2) not in regs, f"{where}: the loop is bounded by a mutable variable")
+                inner, end = block_after(body, m.end() - 1, where)
+                sub = block(inner)
+                need(sub and sub[-1][0] == 30, f"{where}: the loop body does not end with the assignment of the pair")
+                out.append((31, [arg(m.group(2)), len(sub)]))
+                out += sub
+                pos = end
+                continue
+            m = re.compile(r"if(\w+)(==|!=)(\w+)" + ab).match(body, pos)
+            if m:
+                out.append((32 if m.group(2) == "==" else 33, [arg(m.group(1)), arg(m.group(3))] + err(m.group(4), m.group(5))))
+                pos = m.end()
+                continue
+            m = re.compile(r"if(\w+)!=" + beta + ab).match(body, pos)
+            if m:
+                out.append((34, [arg(m.group(1)), int(m.group(2)), arg(m.group(3))] + err(m.group(4), m.group(5))))
+                pos = m.end()
+                continue
+            m = re.compile(r"assert_eq!\((\w+)," + beta + r"\);").match(body, pos)
+            if m:
+                out.append((35, [arg(m.group(1)), int(m.group(2)), arg(m.group(3))]))
+                pos = m.end()
+                continue
+            m = re.compile(r"if(\w+)==NULL_DART_ID\{").match(body, pos)
+            if m:
+                th, end = block_after(body, m.end() - 1, where)
+                t_ins = block(th)
+                e_ins = []
+                if body.startswith("elseif", end):
+                    # `else if c { abort }` is `else { if c { abort } }`
+                    m2 = re.compile(r"elseif(\w+)(==|!=)(\w+)" + ab).match(body, end)
+                    need(m2, f"{where}: `else if` not recognised at {body[end:end + 80]!r}")
+                    e_ins = [(32 if m2.group(2) == "==" else 33, [arg(m2.group(1)), arg(m2.group(3))] + err(m2.group(4), m2.group(5)))]
+                    end = m2.end()
+                else:
+                    need(not body.startswith("else", end), f"{where}: unexpected `else`")
+                out.append((36, [arg(m.group(1)), len(t_ins), len(e_ins)]))
+                out += t_ins + e_ins
+                pos = end
+                continue
+            m = re.compile(r"Ok\(\(\)\)$").match(body, pos)
+            if m:
+                pos = m.end()
+                continue
+            raise Shape(f"{where}: statement not recognised at {body[pos:pos + 90]!r}")
+        return out
+
+    body = "".join(fn_body(src, fname).split())
+    need(body.endswith("Ok(())"), f"{where}: does not end with Ok(())")
+    return block(body)
+
+
+def gen_links3c():
+    src = strip_comments(open(LINK3C_RS).read())
+    fns = [(f, link3c_instrs(src, f)) for f in ("three_link", "three_unlink")]
+    out = ["/-\n  GENERATED by /verif/tools/gen_lean.py from\n  /repo/honeycomb-core/src/cmap/dim3/links/three.rs — DO NOT EDIT.\n"
+           "  Regenerated by tools/check.py before every build of a module that imports it.\n\n"
+           "  `CMap3::three_link(ld, rd)` / `CMap3::three_unlink(ld)` as (opcode, operands):\n"
+           "    (0, [f, a, b])          self.betas.<f>(trans, a, b)?     f as in Gen/Links3.lean\n"
+           "    (1, [i, a])             let x = self.beta_transac::<i>(trans, a)?        (binds the next variable)\n"
+           "    (30, [i, a, j, b])      (lside, rside) = (self.beta_transac::<i>(trans, a)?, self.beta_transac::<j>(trans, b)?)\n"
+           "                            (also the declaring `let (mut lside, mut rside) = …`; both reads use the old values)\n"
+           "    (31, [s, n])            while lside != s && lside != NULL_DART_ID { the next n instructions }   (s = 2: only the null test)\n"
+           "    (32, [a, b, k, e…])     if a == b { abort(LinkError::k(e…))?; }\n"
+           "    (33, [a, b, k, e…])     if a != b { abort(LinkError::k(e…))?; }\n"
+           "    (34, [a, i, b, k, e…])  if a != self.beta_transac::<i>(trans, b)? { abort(LinkError::k(e…))?; }\n"
+           "    (35, [a, i, b])         assert_eq!(a, self.beta_transac::<i>(trans, b)?)\n"
+           "    (36, [a, n, m])         if a == NULL_DART_ID { the next n instructions } else { the m instructions after them }\n"
+           "  operands: 0 = ld, 1 = rd (when a parameter), 2 = NULL_DART_ID, 10 = lside, 11 = rside, 20 + j = the j-th bound variable;\n"
+           "  k: 3 = AsymmetricalFaces.  Props/C02Gen3.lean interprets these lists and proves them EQUAL to `threeLink3` / `threeUnlink3`\n"
+           "  of Model/Ops3.lean.\n-/\n",
+           "namespace HC.Gen\n"]
+    for f, ins in fns:
+        camel = re.sub(r"_(\w)", lambda m: m.group(1).upper(), f) + "3"
+        out.append(f"/-- `CMap3::{f}` -/\ndef {camel} : List (Nat × List Nat) := [" +
+                   ", ".join(f"({op}, [{', '.join(map(str, a))}])" for op, a in ins) + "]\n")
+    out.append("end HC.Gen\n")
+    txt = "\n".join(out)
+    if not os.path.exists(LINK3C_OUT) or open(LINK3C_OUT).read() != txt:
+        open(LINK3C_OUT, "w").write(txt)
+    return f"gen_lean: links3c ok ({sum(len(i) for _, i in fns)} instructions)"
+
+
+GENERATORS["links3c"] = gen_links3c
+
+# ---------------------------------------------------------------------------------------------
+# dart allocation: add_free_dart(s), insert_free_dart, remove_free_dart(_transac) of dim2/basic_ops.rs and dim3/basic_ops.rs,
+# AttrStorageManager::extend_storages and the bucket a bind policy selects (attributes/manager.rs)
+# ---------------------------------------------------------------------------------------------
+
+ALLOC2_RS = os.environ.get("GEN_LEAN_ALLOC2_RS", "/repo/honeycomb-core/src/cmap/dim2/basic_ops.rs")
+ALLOC3_RS = os.environ.get("GEN_LEAN_ALLOC3_RS", "/repo/honeycomb-core/src/cmap/dim3/basic_ops.rs")
+MANAGER_RS = os.environ.get("GEN_LEAN_MANAGER_RS", "/repo/honeycomb-core/src/attributes/manager.rs")
+ALLOC_OUT = os.path.join(os.path.dirname(LINK3_OUT), "Alloc.lean")
+ALLOC_COMP = {"betas.extend": 1, "unused_darts.extend": 2, "vertices.extend": 3, "attributes.extend_storages": 4}
+
+
+def alloc_add(src, fname, dim):
+    """add_free_dart / add_free_darts -> (source of the returned id, [(component, amount)]); amount 0 = the parameter, 1 = literal 1"""
+    where = f"dim{dim}/basic_ops.rs {fname}"
+    body = "".join(fn_body(src, fname).split())
+    sig = "".join(fn_sig(src, fname).split())
+    par = re.findall(r"(\w+):usize", sig)
+    need(len(par) <= 1, f"{where}: parameters {par}")
+    m = re.match(r"letnew_id=self\.n_darts(\(\))?asDartIdType;", body)
+    need(m, f"{where}: does not start by saving the dart count")
+    derived = m.group(1) is not None           # 3-D: n_darts() is derived from the beta storage
+    pos, comps = m.end(), []
+
+    def amount(tok):
+        if tok == "1":
+            return 1
+        need(par and tok == par[0], f"{where}: extension by {tok!r}")
+        return 0
+
+    while not body.startswith("new_id", pos):
+        m = re.compile(r"self\.n_darts\+=(\w+);").match(body, pos)
+        if m:
+            need(not derived, f"{where}: the derived dart count is assigned")
+            comps.append((0, amount(m.group(1))))
+            pos = m.end()
+            continue
+        m = re.compile(r"self\.(\w+\.\w+)\((\w+)\);").match(body, pos)
+        need(m and m.group(1) in ALLOC_COMP, f"{where}: statement not recognised at {body[pos:pos + 60]!r}")
+        comps.append((ALLOC_COMP[m.group(1)], amount(m.group(2))))
+        pos = m.end()
+    need(body[pos:] == "new_id", f"{where}: does not return the saved count")
+    return (1 if derived else 0), comps
+
+
+def alloc_rest(src, dim):
+    where = f"dim{dim}/basic_ops.rs"
+    b = "".join(fn_body(src, "insert_free_dart").split())
+    m = re.fullmatch(r"ifletSome\(\(new_id,_\)\)=self\.unused_darts\.iter\(\)\.enumerate\(\)\.find\(\|\(_,u\)\|(!?)u\.read_atomic\(\)\)"
+                     r"\{atomically\(\|trans\|self\.unused_darts\[new_idasDartIdType\]\.write\(trans,(true|false)\)\);new_idasDartIdType\}"
+                     r"else\{self\.(add_free_dart)\(\)\}", b)
+    need(m, f"{where} insert_free_dart: shape not recognised: {b[:120]!r}")
+    ins = [0 if m.group(1) else 1, 1 if m.group(2) == "true" else 0, 1]      # flag value searched for (first match from index 0), value written, falls back to add_free_dart
+    b = "".join(fn_body(src, "remove_free_dart_transac").split())
+    m = re.fullmatch(r"self\.unused_darts\[dart_id\]\.replace\(t,(true|false)\)", b)
+    need(m, f"{where} remove_free_dart_transac: shape not recognised: {b[:120]!r}")
+    rtx = [1 if m.group(1) == "true" else 0]                                 # `replace`: returns the old flag, writes this value
+    b = "".join(fn_body(src, "remove_free_dart").split())
+    m = re.fullmatch(r"assert!\(self\.is_free\(dart_id\)\);assert!\((!?)atomically\(\|t\|self\.remove_free_dart_transac\(t,dart_id\)\)\);", b)
+    need(m, f"{where} remove_free_dart: shape not recognised: {b[:120]!r}")
+    rm = [1, 0 if m.group(1) else 1]                                          # freeness asserted first; then the answer of the removal asserted to be this value
+    b = "".join(fn_body(src, "is_free").split())
+    idx = []
+    for conj in b.split("&&"):
+        m = re.fullmatch(r"self\.beta::<(\d)>\(dart_id\)==NULL_DART_ID", conj)
+        need(m, f"{where} is_free: conjunct not recognised: {conj!r}")
+        idx.append(int(m.group(1)))
+    return ins, rtx, rm, idx
+
+
+def alloc_manager(src):
+    where = "attributes/manager.rs"
+    b = "".join(fn_body(src, "extend_storages").split())
+    buckets, pos = [], 0
+    while pos < len(b):
+        m = re.compile(r"formapin&mutself\.icells\{forstorageinmap\.values_mut\(\)\{storage\.extend\(length\);\}\}").match(b, pos)
+        if m:
+            buckets.append(0)
+            pos = m.end()
+            continue
+        m = re.compile(r"forstorageinself\.others\.values_mut\(\)\{storage\.extend\(length\);\}").match(b, pos)
+        need(m, f"{where} extend_storages: statement not recognised at {b[pos:pos + 80]!r}")
+        buckets.append(1)
+        pos = m.end()
+    # get_map / get_map_mut: the bucket of every bind policy (4 = others)
+    pol = {"Vertex": 0, "VertexLinear": 4, "Edge": 1, "Face": 2, "FaceLinear": 5, "Volume": 3, "VolumeLinear": 6, "Custom(_)": 7}
+    tables = []
+    for f in ("get_map", "get_map_mut"):
+        gb = "".join(fn_body(src, f).split())
+        m = re.fullmatch(r"matchorbit\{(.*)\}", gb)
+        need(m, f"{where} {f}: not a single match")
+        row = {}
+        for arm in [a for a in m.group(1).split(",") if a]:
+            h = re.fullmatch(r"((?:OrbitPolicy::[\w()]+\|?)+)=>&(?:mut)?self\.(icells\[(\d)\]|others)", arm)
+            need(h, f"{where} {f}: arm not recognised: {arm!r}")
+            for pn in h.group(1).split("|"):
+                pn = pn.replace("OrbitPolicy::", "")
+                need(pn in pol and pol[pn] not in row, f"{where} {f}: policy {pn}")
+                row[pol[pn]] = int(h.group(3)) if h.group(3) is not None else 4
+        need(sorted(row) == list(range(8)), f"{where} {f}: policies {sorted(row)}")
+        tables.append([row[k] for k in range(8)])
+    need(tables[0] == tables[1], f"{where}: get_map and get_map_mut disagree")
+    return buckets, tables[0]
+
+
+def gen_alloc():
+    s2, s3 = strip_comments(open(ALLOC2_RS).read()), strip_comments(open(ALLOC3_RS).read())
+    mg = strip_comments(open(MANAGER_RS).read())
+    out = ["/-\n  GENERATED by /verif/tools/gen_lean.py from /repo/honeycomb-core/src/cmap/dim2/basic_ops.rs, dim3/basic_ops.rs and\n"
+           "  attributes/manager.rs — DO NOT EDIT.  Regenerated by tools/check.py before every build of a module that imports it.\n\n"
+           "  add_free_dart / add_free_darts: (d, steps); d = 1 when the saved id is the DERIVED count `self.n_darts()` (3-D), 0 when it is the\n"
+           "  field `self.n_darts` (2-D); steps in source order, (component, amount): component 0 = `self.n_darts += …`, 1 = `self.betas.extend`,\n"
+           "  2 = `self.unused_darts.extend`, 3 = `self.vertices.extend`, 4 = `self.attributes.extend_storages`; amount 0 = the parameter, 1 = the literal 1.\n"
+           "  insertFreeDart: [flag value searched for from index 0, value written to the slot found, 1 = falls back to add_free_dart].\n"
+           "  removeFreeDartTx: [value `replace`d into the flag (the old flag is the answer)].\n"
+           "  removeFreeDart: [1 = `assert!(self.is_free(d))` comes first, the answer of the transactional removal that the second assertion demands].\n"
+           "  isFree: the indices i of the conjuncts `self.beta::<i>(d) == NULL_DART_ID` of `is_free`, in source order.\n"
+           "  extendStorages: buckets extended by `extend_storages`, in source order (0 = every map of `icells`, 1 = `others`).\n"
+           "  bucketOfPolicy: bucket chosen by get_map / get_map_mut for the policies Vertex, Edge, Face, Volume, VertexLinear, FaceLinear,\n"
+           "  VolumeLinear, Custom(_) in this order (0..3 = icells[i], 4 = others).\n"
+           "  Props/C18Gen.lean gives these tables their meaning and proves it EQUAL to the allocation functions of Model/Ops.lean.\n-/\n",
+           "namespace HC.Gen.Alloc\n"]
+    for dim, src in ((2, s2), (3, s3)):
+        for f, nm in (("add_free_dart", "addFreeDart"), ("add_free_darts", "addFreeDarts")):
+            d, comps = alloc_add(src, f, dim)
+            out.append(f"def {nm}{dim} : Nat × List (Nat × Nat) := ({d}, [" + ", ".join(f"({a}, {b})" for a, b in comps) + "])")
+        ins, rtx, rm, free = alloc_rest(src, dim)
+        out.append(f"def isFree{dim} : List Nat := {free}")
+        out.append(f"def insertFreeDart{dim} : List Nat := {ins}")
+        out.append(f"def removeFreeDartTx{dim} : List Nat := {rtx}")
+        out.append(f"def removeFreeDart{dim} : List Nat := {rm}\n")
+    buckets, table = alloc_manager(mg)
+    out.append(f"def extendStorages : List Nat := {buckets}")
+    out.append(f"def bucketOfPolicy : List Nat := {table}\n")
+    out.append("end HC.Gen.Alloc\n")
+    txt = "\n".join(out)
+    if not os.path.exists(ALLOC_OUT) or open(ALLOC_OUT).read() != txt:
+        open(ALLOC_OUT, "w").write(txt)
+    return "gen_lean: alloc ok"
+
+
+GENERATORS["alloc"] = gen_alloc
 
 
 def run(names):
